@@ -20,3 +20,48 @@ Print Assumptions C14_faulty_subsequence.
 Theorem C14_gap_bound : forall mr ms o, (length ms - length (fst (send_all mr ms o)) <= length o)%nat.
 Proof. exact gap_bound. Qed.
 Print Assumptions C14_gap_bound.
+
+(* ---------- connection level: partial writes (the producer blocked in the middle of a message) ---------- *)
+From VF Require Model.ProducerConn Proofs.ProducerConnProofs Gen.RawSocket.
+Import Model.ProducerConn.
+
+(* the send loop of rawSocket.go is the one modelled (regenerated from the source on every run, Gen/RawSocket.v): every
+   attempt writes the message received from the channel plus one newline from its first octet, inside the retry loop; the
+   message is not changed between attempts; no deadline is ever set on the connection (so an error from Write means the
+   connection is dead); failed attempts are counted; redial on "broken pipe"; attempts end when i >= MaxRetry *)
+Theorem C14_send_loop_is_the_modelled_one :
+  raw_socket_ok Gen.RawSocket.write_form Gen.RawSocket.write_in_loop Gen.RawSocket.msg_stable Gen.RawSocket.counts_errors
+                Gen.RawSocket.conn_methods Gen.RawSocket.conn_users Gen.RawSocket.redial_on Gen.RawSocket.retry_break = true.
+Proof. vm_compute. reflexivity. Qed.
+Print Assumptions C14_send_loop_is_the_modelled_one.
+
+(* any schedule of complete and PARTIAL write failures under which a failed connection stays failed: the complete lines
+   written, over all connections in order, are the lines of a sub-list of the messages (in order, none twice, each intact);
+   what is left unterminated at the end of a connection is the beginning of a handed-over message, never more *)
+Theorem C14_partial_writes_never_corrupt : forall mr ms o,
+  dead_ok false o = true ->
+  exists keep, length keep = length ms /\
+    all_lines (fst (crun mr ms o)) = map line (select keep ms) /\
+    Forall (fun c => exists m k, (pend c = [] \/ In m ms) /\ pend c = firstn k m) (fst (crun mr ms o)).
+Proof. exact ProducerConnProofs.written_framing. Qed.
+Print Assumptions C14_partial_writes_never_corrupt.
+
+(* ... and whatever prefix of each connection's lines the sink has received: in order, duplicate free, uncorrupted *)
+Theorem C14_received_is_a_subsequence : forall mr ms o take,
+  dead_ok false o = true -> sublist (received take (rev (fst (crun mr ms o)))) (map line ms).
+Proof. exact ProducerConnProofs.received_subsequence. Qed.
+Print Assumptions C14_received_is_a_subsequence.
+
+(* why no deadline may be set: an error that leaves the connection writable puts the retry behind the octets already sent *)
+Theorem C14_writable_after_error_corrupts :
+  dead_ok false [AErr 2 false false; AOk] = false /\
+  all_lines (fst ProducerConnProofs.hazard_run) = [[65; 66; 65; 66; 67; 10]] /\ ~ In [65; 66; 65; 66; 67; 10] (map line [[65; 66; 67]]).
+Proof. exact ProducerConnProofs.writable_after_error_corrupts. Qed.
+Print Assumptions C14_writable_after_error_corrupts.
+
+(* the discipline predicate is not vacuous: it rejects a loop that sets a write deadline, one that sends a consumed buffer *)
+Local Open Scope string_scope.
+Example C14_discipline_rejects :
+  raw_socket_ok "whole-line" true true true ["SetWriteDeadline"] ["fmt.Fprintf"] "strings.HasSuffix(err.Error(), ""broken pipe"")" "i >= rs.config.MaxRetry" = false /\
+  raw_socket_ok "bufs.WriteTo(rs.connection)" true true true [] [] "strings.HasSuffix(err.Error(), ""broken pipe"")" "i >= rs.config.MaxRetry" = false.
+Proof. vm_compute. split; reflexivity. Qed.
